@@ -112,3 +112,25 @@ package reactive
 //@   ensures err == nil && hasRerunner ==> nlink == 1
 //@   ghost hasRerunner bool
 //@   call HasRerunner ghost hasRerunner = ret0
+
+// ---- C08 / C02: a stopped rerunner computes nothing more and keeps nothing. run performs the computation only while
+// holding r.mu with r.stop false (Stop sets stop under the same mutex, so a run that lost the race returns without
+// computing and without registering resources); the previous computation is released when it is superseded; a new
+// computation is stored only with stop still false. Stop releases the stored computation and forgets it.
+//@ nonnil reactive.Rerunner.cache        // NewRerunner always allocates the cache
+//@ func Rerunner.run
+//@   requires r != nil
+//@   call NewTimer assume ret0 != nil
+//@   call run assume ret1 == nil ==> ret0 != nil        // reactive.run returns a computation unless it returns an error
+//@   call run assume comparable(ret1)                   // errors produced by compute functions are pointers or comparable structs
+//@   keeps Rerunner
+//@   call cache.cleanInvalidated assert !r.stop && arg0 == r.cache
+//@   call run assert !r.stop && arg1 == r.f
+//@   call node.handleInvalidate assert !r.stop && r.computation != nil && arg0 == addr(r.computation.node)
+//@   call node.release assert r.computation != nil && arg0 == addr(r.computation.node)
+
+//@ func Rerunner.Stop
+//@   requires r != nil
+//@   keeps Rerunner
+//@   call node.release assert r.computation != nil && arg0 == addr(r.computation.node)
+//@   ensures r.stop && r.computation == nil
